@@ -259,4 +259,108 @@ theorem setSize_neg (s : St) (x : Nat) (h : OWF (s.h x)) :
       rw [this]; simp [val]
     split_ifs <;> omega
 
+/-! ## TMP variables: blocks that must not be reallocated -/
+
+theorem MPZ_REALLOC_noop (s : St) (w n : Nat) (h : n ≤ s.ALLOC w) : MPZ_REALLOC s w n = s := by
+  unfold MPZ_REALLOC; rw [if_neg (by omega)]
+
+theorem mulTail_gen (s : St) (w : Nat) (up vp : Src) (usize vsize : Nat) (same neg : Bool) (x : Nat) :
+    ((mulTail s w up vp usize vsize same neg).h x).gen = (s.h x).gen := by
+  unfold mulTail
+  split <;> simp [mpn_mul_S, St.load]
+
+theorem mulGeneric_gen (s : St) (w u v usize vsize : Nat) (neg : Bool) (h : usize + vsize ≤ s.ALLOC w) (x : Nat) :
+    ((mulGeneric true s w u v usize vsize neg).h x).gen = (s.h x).gen := by
+  unfold mulGeneric
+  simp only []
+  rw [if_neg (by omega)]
+  split
+  · rw [mulTail_gen]; simp [tmp_copy]
+  · split
+    · rw [mulTail_gen]; simp [tmp_copy]
+    · rw [mulTail_gen]
+
+/-- mpz_mul does not replace the block of w when it has room for usize + vsize limbs -/
+theorem mpz_mul_gen_keep (s : St) (w u v : Nat) (h : (s.SIZ u).natAbs + (s.SIZ v).natAbs ≤ s.ALLOC w) (x : Nat) :
+    ((mpz_mul s w u v).h x).gen = (s.h x).gen := by
+  unfold mpz_mul mul
+  simp only []
+  split
+  · simp
+  · split
+    · rename_i h1
+      have h1' : (s.SIZ v).natAbs = 1 := by simpa using h1
+      rw [MPZ_REALLOC_noop _ _ _ (by omega)]
+      simp [mpn_mul_1, St.load, St.store]
+    · split
+      · rw [MPZ_REALLOC_noop _ _ _ (by omega)]
+        split <;> simp [mpn_mul, St.load]
+      · split
+        · exact mulGeneric_gen _ _ _ _ _ _ _ (by omega) x
+        · exact mulGeneric_gen _ _ _ _ _ _ _ (by omega) x
+
+theorem chk_true (s : St) : s.chk true = s := by cases s; simp [St.chk]
+
+theorem tmpKept_eq (s : St) (x : Nat) (h : (s.h x).gen = 0) : tmpKept s x = s := by
+  unfold tmpKept; rw [h]; exact chk_true s
+
+theorem tmp_owf (n : Nat) (h : 1 ≤ n) : OWF ⟨0, 0, Buf.new n⟩ := by
+  refine ⟨BWF_new n, ?_⟩
+  refine ⟨by simpa [view, Buf.new] using h, by simp [view], by simp [view], ?_, by simp [view]⟩
+  simp [view]; intro x hx; simp at hx
+
+@[simp] theorem tmpInit_ok (s : St) (x n : Nat) : (tmpInit s x n).ok = s.ok := rfl
+theorem tmpInit_same (s : St) (x n : Nat) : (tmpInit s x n).h x = ⟨0, 0, Buf.new n⟩ := by simp [tmpInit, upd]
+theorem tmpInit_other (s : St) (x n : Nat) {y : Nat} (h : y ≠ x) : (tmpInit s x n).h y = s.h y := by simp [tmpInit, upd, h]
+
+/-- mpz_gcd leaves the block of g alone when it has room for the result -/
+theorem mpz_gcd_gen_keep (s : St) (g u v : Nat) (hs : s.ok = true) (hg : OWF (s.h g))
+    (h : (natLimbs (Int.gcd (valOf s u) (valOf s v))).length ≤ s.ALLOC g) :
+    ((mpz_gcd s g u v).h g).gen = (s.h g).gen := by
+  unfold mpz_gcd
+  have := (objWrite_wrote s g (natLimbs (Int.gcd (valOf s u) (valOf s v) : Int).natAbs).length (Int.gcd (valOf s u) (valOf s v) : Nat) hs hg
+    (by omega)).2.2
+  rw [this, MPZ_REALLOC_noop _ _ _ (by simpa using h)]
+
+/-- `MPZ_EQUAL_1_P` on a variable that holds 1: true, and the load of PTR(z)[0] is inside the block -/
+theorem equal1_one (s : St) (z : Nat) (hz : OWF (s.h z)) (h1 : valOf s z = 1) : equal1 s z = (true, s) := by
+  have hnn : ¬ (s.h z).size < 0 := by rw [size_neg_iff s z hz, h1]; omega
+  have hne : (s.h z).size ≠ 0 := by intro e; have := valOf_size_zero s z e; omega
+  have hge := valOf_ge s z hz hne
+  rw [h1] at hge
+  have hsz : (s.h z).size = 1 := by
+    by_contra hc
+    have : 2 ≤ (s.h z).size.natAbs := by omega
+    have : B ^ 1 ≤ B ^ ((s.h z).size.natAbs - 1) := Nat.pow_le_pow_right B_pos (by omega)
+    have hB : 2 ≤ B := by unfold B; norm_num
+    simp at hge this; omega
+  obtain ⟨hb, ha, hfit, hlen, hl, hn⟩ := hz
+  have hv := natAbs_valOf s z
+  rw [h1] at hv
+  simp only [view, hsz] at hv hlen ha
+  have hna : Int.natAbs 1 = 1 := rfl
+  rw [hna] at hv hlen
+  have hd : (s.h z).buf.limbs.take 1 = [1] := by
+    match hm : (s.h z).buf.limbs.take 1, hlen with
+    | [a], _ => rw [hm] at hv; simp [val] at hv; rw [← hv]
+  unfold equal1
+  simp only [St.SIZ, hsz, beq_self_eq_true, if_true, St.load, Ptr.add, St.PTR]
+  have e1 : s.rd ⟨z, (s.h z).gen, 0 + 0⟩ 1 = [1] := by
+    simp [St.rd, Buf.read, hd]
+  have e2 : s.rdOk ⟨z, (s.h z).gen, 0 + 0⟩ 1 = true := by
+    simp [St.rdOk, Buf.read, St.live]; simpa using ha
+  rw [e1, e2, chk_true]; rfl
+
+theorem zaors_wrote (isSub : Bool) (s : St) (w u v : Nat) (hs : s.ok = true) (hw : OWF (s.h w)) (hu : OWF (s.h u)) (hv : OWF (s.h v)) :
+    Wrote s (zaors isSub s w u v) w (if isSub then valOf s u - valOf s v else valOf s u + valOf s v) := by
+  unfold zaors
+  cases isSub
+  · simpa using mpz_add_wrote s w u v hs hw hu hv
+  · simpa using mpz_sub_wrote s w u v hs hw hu hv
+
+theorem size_toNat (s : St) (x : Nat) (h : OWF (s.h x)) (hp : 0 < valOf s x) : (s.SIZ x).toNat = (s.h x).size.natAbs ∧ 1 ≤ (s.h x).size.natAbs := by
+  have hnn : ¬ (s.h x).size < 0 := by rw [size_neg_iff s x h]; omega
+  have hne : (s.h x).size ≠ 0 := by intro e; have := valOf_size_zero s x e; omega
+  simp only [St.SIZ]; omega
+
 end Mpir.AllocSafe6
